@@ -122,28 +122,126 @@ def writer_tokens(body):
     return toks
 
 
+def _block_after(text, pos):
+    """text[pos] is `{`: the text inside the matching braces and the position after the closing one"""
+    depth, k = 0, pos
+    while k < len(text):
+        depth += text[k] == "{"
+        depth -= text[k] == "}"
+        k += 1
+        if depth == 0:
+            return text[pos + 1:k - 1], k
+    raise ExtractError(f"{SRC}: write_function: unbalanced braces in the cache-stripping code")
+
+
+def _opcode_branches(body):
+    """the cache-stripping dispatch on `opcode`, in either spelling:
+         if opcode == A {..} else if opcode == B {..} else {..}
+         match opcode { A => {..} B => {..} _ => .. }
+    -> ([(opcode number, block text)], default text)"""
+    branches, default = [], None
+    m = re.search(r"\bif\s+opcode\s*==\s*(\d+)\s*\{", body)
+    mm = re.search(r"\bmatch\s+opcode\s*\{", body)
+    if m and (not mm or m.start() < mm.start()):
+        pos = m.start()
+        while True:
+            m = re.compile(r"if\s+opcode\s*==\s*(\d+)\s*\{").match(body, pos)
+            if not m:
+                raise ExtractError(f"{SRC}: write_function: a branch of the cache-stripping chain does not test `opcode == N`")
+            blk, end = _block_after(body, m.end() - 1)
+            branches.append((int(m.group(1)), blk))
+            e = re.compile(r"\s*else\s*").match(body, end)
+            if not e:
+                raise ExtractError(f"{SRC}: write_function: the cache-stripping chain has no final `else`")
+            if body[e.end()] == "{":
+                default, _ = _block_after(body, e.end())
+                break
+            pos = e.end()
+    elif mm:
+        inner, _ = _block_after(body, mm.end() - 1)
+        pos = 0
+        arm = re.compile(r"\s*(\d+|_)\s*=>\s*")
+        while True:
+            a = arm.match(inner, pos)
+            if not a:
+                if inner[pos:].strip(" \n\t,"):
+                    raise ExtractError(f"{SRC}: write_function: a `match opcode` arm is not `N => ..` or `_ => ..`: {inner[pos:pos + 40]!r}")
+                break
+            if inner[a.end()] == "{":
+                blk, end = _block_after(inner, a.end())
+            else:
+                end = inner.index(",", a.end()) if "," in inner[a.end():] else len(inner)
+                blk = inner[a.end():end]
+            if a.group(1) == "_":
+                default = blk
+            else:
+                branches.append((int(a.group(1)), blk))
+            pos = end
+            c = re.compile(r"\s*,").match(inner, pos)
+            if c:
+                pos = c.end()
+    else:
+        raise ExtractError(f"{SRC}: write_function: cache-stripping dispatch on `opcode` (`if opcode == A {{..}} else if opcode == B {{..}} else` or `match opcode {{ A => .., B => .., _ => .. }}`) not recognised")
+    if default is None:
+        raise ExtractError(f"{SRC}: write_function: the cache-stripping dispatch has no default branch")
+    return branches, default
+
+
 def writer_opcodes(body):
-    m1 = re.search(r"if\s+opcode\s*==\s*(\d+)\s*\{(.*?)\}\s*else\s+if\s+opcode\s*==\s*(\d+)\s*\{(.*?)\}\s*else\s*\{", body, flags=re.S)
-    if not m1:
-        raise ExtractError(f"{SRC}: write_function: cache-stripping `if opcode == A {{..}} else if opcode == B {{..}} else` not recognised")
-    op_a, blk_a, op_b, blk_b = int(m1.group(1)), m1.group(2), int(m1.group(3)), m1.group(4)
-    mr = re.search(r"let\s+new_instr\s*=\s*\(instr\s*&\s*(0x[0-9A-Fa-f_]+)\)\s*\|\s*\((\d+)\s*<<\s*24\)\s*;", blk_a)
-    if not mr:
-        raise ExtractError(f"{SRC}: write_function: opcode rewrite `(instr & MASK) | (N << 24)` not recognised")
-    mask, rew = int(mr.group(1).replace("_", ""), 16), int(mr.group(2))
-    if mask != 0x00FFFFFF:
-        raise ExtractError(f"{SRC}: write_function: rewrite mask is {mask:#x}, the model assumes 0x00FFFFFF")
-    sk = []
-    for blk in (blk_a, blk_b):
-        ms = re.search(r"skip_cache_words\s*=\s*(\d+)\s*;", blk)
-        if not ms:
-            raise ExtractError(f"{SRC}: write_function: `skip_cache_words = N` missing in a cache-stripping branch")
-        sk.append(int(ms.group(1)))
+    """what the writer does with an instruction word, as data: the opcode whose word is rewritten (and to what), the
+    opcode whose word is kept, how many following cache words each zeroes. The spelling of the dispatch is free;
+    what each branch does must be one of: write `instr`; write `(instr & 0x00FFFFFF) | (N << 24)` (directly or
+    through one `let`); and optionally `skip_cache_words = K`. Anything else in a branch is refused."""
+    branches, default = _opcode_branches(body)
+    if len(branches) != 2:
+        raise ExtractError(f"{SRC}: write_function: the cache-stripping dispatch has {len(branches)} opcode branches, the model has 2 (CallGlobalMono, CallGlobal)")
+    rewrite_re = r"\(\s*instr\s*&\s*(0x[0-9A-Fa-f_]+)\s*\)\s*\|\s*\(\s*(\d+)\s*<<\s*24\s*\)"
+
+    def effect(blk, what):
+        rest = blk
+        rew = None
+        ml = re.search(r"let\s+(\w+)\s*=\s*" + rewrite_re + r"\s*;", rest)
+        if ml:
+            var, mask, rew = ml.group(1), int(ml.group(2).replace("_", ""), 16), int(ml.group(3))
+            rest = rest.replace(ml.group(0), "", 1)
+            mw = re.search(r"self\.write_u32\(\s*" + re.escape(var) + r"\s*\)\s*;?", rest)
+        else:
+            mw = re.search(r"self\.write_u32\(\s*" + rewrite_re + r"\s*\)\s*;?", rest)
+            if mw:
+                mask, rew = int(mw.group(1).replace("_", ""), 16), int(mw.group(2))
+        if rew is not None:
+            if not mw:
+                raise ExtractError(f"{SRC}: write_function: {what}: the rewritten word is not what is written")
+            if mask != 0x00FFFFFF:
+                raise ExtractError(f"{SRC}: write_function: rewrite mask is {mask:#x}, the model assumes 0x00FFFFFF")
+        else:
+            mw = re.search(r"self\.write_u32\(\s*instr\s*\)\s*;?", rest)
+            if not mw:
+                raise ExtractError(f"{SRC}: write_function: {what}: writes neither `instr` nor `(instr & MASK) | (N << 24)`")
+        rest = rest.replace(mw.group(0), "", 1)
+        skip = 0
+        ms = re.search(r"skip_cache_words\s*=\s*(\d+)\s*;", rest)
+        if ms:
+            skip = int(ms.group(1))
+            rest = rest.replace(ms.group(0), "", 1)
+        if rest.strip(" \n\t,;"):
+            raise ExtractError(f"{SRC}: write_function: {what}: statement(s) the model does not have: {' '.join(rest.split())[:80]!r}")
+        return rew, skip
+
+    effs = [(op,) + effect(blk, f"branch for opcode {op}") for op, blk in branches]
+    d_rew, d_skip = effect(default, "default branch")
+    if d_rew is not None or d_skip != 0:
+        raise ExtractError(f"{SRC}: write_function: the default branch rewrites the word or skips cache words; the model writes every other word unchanged")
+    rewriting = [e for e in effs if e[1] is not None]
+    keeping = [e for e in effs if e[1] is None]
+    if len(rewriting) != 1 or len(keeping) != 1:
+        raise ExtractError(f"{SRC}: write_function: expected one rewriting branch and one keeping branch, found {len(rewriting)} and {len(keeping)}")
     if not re.search(r"let\s+opcode\s*=\s*\(instr\s*>>\s*24\)\s*as\s+u8\s*;", body):
         raise ExtractError(f"{SRC}: write_function: `let opcode = (instr >> 24) as u8` not recognised")
     if not re.search(r"if\s+skip_cache_words\s*>\s*0\s*\{[^}]*self\.write_u32\(0\);[^}]*skip_cache_words\s*-=\s*1;", body, flags=re.S):
         raise ExtractError(f"{SRC}: write_function: zeroing of cache words not recognised")
-    return op_a, rew, sk[0], op_b, sk[1]
+    (op_a, rew, sk_a), (op_b, _, sk_b) = rewriting[0], keeping[0]
+    return op_a, rew, sk_a, op_b, sk_b
 
 
 WCONST_SHAPE = [
